@@ -1,7 +1,7 @@
 """Replacement corpus for C15: a base hierarchy, a history of replace_component / replace_component_with_obj calls, and
 the same design built from scratch with the replacements in place."""
 from pymtl3 import *
-from pymtl3.dsl import CallerPort, method_port
+from pymtl3.dsl import CallerPort, method_port, M
 
 
 class Plain(Component):
@@ -154,8 +154,127 @@ HISTORIES = {
 }
 
 
+# ---------------------------------------------------------------------------
+# second base design: richer boundary between the parent and the replaced child -- one outside signal fanned out to
+# several ports and slices of the child, a constant tie-off, child outputs fanned out to slices, a struct field
+# ---------------------------------------------------------------------------
+@bitstruct
+class Cfg:
+  sh: Bits5
+  inv: Bits1
+
+
+class Alu(Component):
+  def construct(s):
+    s.a = InPort(32); s.b = InPort(32); s.amt = InPort(5); s.cfg = InPort(Cfg); s.out = OutPort(32); s.lo = OutPort(16)
+    @update
+    def up_alu():
+      s.out @= (s.a + s.b) << zext(s.amt, 32)
+      s.lo @= s.a[0:16] ^ s.b[16:32]
+
+
+class Alu2(Component):
+  def construct(s):
+    s.a = InPort(32); s.b = InPort(32); s.amt = InPort(5); s.cfg = InPort(Cfg); s.out = OutPort(32); s.lo = OutPort(16)
+    s.r = Wire(32)
+    @update_ff
+    def up_r(): s.r <<= s.a ^ (s.b >> zext(s.amt, 32))
+    @update
+    def up_alu2():
+      if s.cfg.inv: s.out @= ~s.r
+      else:         s.out @= s.r + zext(s.cfg.sh, 32)
+      s.lo @= s.b[0:16]
+
+
+KINDS2 = {'Alu': Alu, 'Alu2': Alu2}
+
+
+class Top2(Component):
+  def construct(s, kind='Alu'):
+    s.in_ = InPort(32); s.out = OutPort(32); s.tap = OutPort(32)
+    s.x = KINDS2[kind]()
+    s.x.a //= s.in_; s.x.b //= s.in_            # one outside signal into two ports of the child
+    s.x.amt //= 3                               # constant tie-off
+    s.x.cfg.sh //= s.in_[0:5]; s.x.cfg.inv //= s.in_[7]     # the same outside signal into fields, by slices
+    s.out //= s.x.out
+    s.tap[0:16] //= s.x.lo; s.tap[16:32] //= s.x.lo          # one child output into two slices
+
+
+HIST2 = {
+  'fanout_const_cls':   ([('s.x', 'Alu2', 'cls')], 'Alu2'),
+  'fanout_const_obj':   ([('s.x', 'Alu2', 'obj')], 'Alu2'),
+  'fanout_const_twice': ([('s.x', 'Alu2', 'cls'), ('s.x', 'Alu', 'cls')], 'Alu'),
+  'fanout_const_same':  ([('s.x', 'Alu', 'cls'), ('s.x', 'Alu', 'obj'), ('s.x', 'Alu2', 'cls')], 'Alu2'),
+}
+
+
+# ---------------------------------------------------------------------------
+# third base design: update_once blocks of the PARENT call method ports of the replaced child directly
+# ---------------------------------------------------------------------------
+class Slot(Component):
+  @method_port
+  def put(s, v): s.slot = v
+  @method_port
+  def take(s):
+    r, s.slot = s.slot, 0
+    return r
+  def construct(s, order='bypass'):
+    s.slot = 0
+    if order == 'bypass': s.add_constraints(M(s.put) < M(s.take))
+    else:                 s.add_constraints(M(s.take) < M(s.put))
+
+
+class SlotPlus(Component):          # (no inheritance: pymtl3 turns only the methods of the class itself into method ports)
+  @method_port
+  def put(s, v): s.slot = v + 1
+  @method_port
+  def take(s):
+    r, s.slot = s.slot, 0
+    return r
+  def construct(s, order='bypass'):
+    s.slot = 0
+    if order == 'bypass': s.add_constraints(M(s.put) < M(s.take))
+    else:                 s.add_constraints(M(s.take) < M(s.put))
+
+
+KINDS3 = {'Slot': Slot, 'SlotPlus': SlotPlus}
+
+
+class Top3(Component):
+  def construct(s, kind='Slot', order='bypass'):
+    s.in_ = InPort(32); s.out = OutPort(32); s.tap = OutPort(32)
+    s.q = KINDS3[kind](order)
+    s.got = Wire(32)
+    @update_once
+    def up_take(): s.got @= s.q.take()
+    @update_once
+    def up_put(): s.q.put(s.in_)
+    @update
+    def up_o():
+      s.out @= s.got
+      s.tap @= s.in_
+
+
+HIST3 = {
+  'parent_calls_child_bypass': ([('s.q', 'SlotPlus', 'cls')], 'SlotPlus', 'bypass'),
+  'parent_calls_child_pipe':   ([('s.q', 'SlotPlus', 'cls'), ('s.q', 'Slot', 'cls')], 'Slot', 'pipe'),
+}
+
+
+def _apply(top, hist, kinds):
+  for target, kind, how in hist:
+    foo = eval(target, {'s': top})
+    if how == 'cls': top.replace_component(foo, kinds[kind])
+    else: top.replace_component_with_obj(foo, kinds[kind](*foo._dsl.args, **foo._dsl.kwargs))
+  return top
+
+
 def replaced(name):
   """elaborated design after the history (passes not applied yet)"""
+  if name in HIST2:
+    top = Top2(); top.elaborate(); return _apply(top, HIST2[name][0], KINDS2)
+  if name in HIST3:
+    top = Top3('Slot', HIST3[name][2]); top.elaborate(); return _apply(top, HIST3[name][0], KINDS3)
   hist, kinds, wrapped = HISTORIES[name]
   top = Top(); top.elaborate()
   for target, kind, how in hist:
@@ -166,8 +285,14 @@ def replaced(name):
 
 
 def scratch(name):
+  if name in HIST2: return Top2(HIST2[name][1])
+  if name in HIST3: return Top3(HIST3[name][1], HIST3[name][2])
   hist, kinds, wrapped = HISTORIES[name]
   return Top(kinds, wrapped)
 
 
-CL_HISTORIES = {'internal_method_net'}      # designs with method ports: only sim_tick() exists
+CL_HISTORIES = {'internal_method_net'} | set(HIST3)      # designs with method ports: only sim_tick() exists
+
+
+def all_names(): return list(HISTORIES) + list(HIST2) + list(HIST3)
+def history_of(name): return (HISTORIES.get(name) or HIST2.get(name) or HIST3.get(name))[0]
